@@ -50,6 +50,16 @@ CHECKS = {
             "up to 7 members validated by Trace_Election.",
             TRUST + "members are stubs exposing drift_state only.",
             "TLA+ spec + exhaustive TLC enumeration replayed into the implementation + trace validation", "5/C13"),
+    "C14": ("Validation.tla states the property's rule (row count, names, width, univariate guard; accepted input establishes memory; a refused "
+            "call changes nothing) and names the code's known departures as deviation actions that are not part of Next. TLC checks on all "
+            "call sequences to depth 5/6 over a 14-input alphabet x stream/batch x univariate: established => enforced, memory meaning, counted, "
+            "no-harm against a twin that never saw the refused calls. Conformance: ALL call sequences of length 2-4 over that alphabet and valid "
+            "histories with a malformed call injected at every position are executed on 10 real classes (bare base-class subclasses, "
+            "KdqTreeStreaming, ADWIN, PageHinkley, CUSUM, KdqTreeBatch, HDDDM, CDBD, NNDVI) in every container type that denotes the value; TLC "
+            "validates accept/refuse, the total counter and equality of all public outputs with a real twin fed only the well-formed calls as "
+            "ndarrays (container independence + no-harm). Traces only explained with a deviation action of an open finding are KNOWN-FINDINGs.",
+            TRUST + "the output digest lists the public statistics per class; y-inputs are not in the alphabet yet.",
+            "TLA+ spec with deviation actions + TLC model checking + TLC validation of product traces", "5/C14"),
 }
 
 NA_REASON = "check not built yet (build in progress; see DESIGN.md section 5)"
